@@ -51,6 +51,9 @@ M = [
  ("C18", "no-sort", "_tablereaders.py", "    results.sort()\n", ""),
  ("C18", "plot-steps-minus-1", "__init__.py", "  step = (highx - lowx) / float(steps)", "  step = (highx - lowx) / float(steps - 1)"),
  ("C18", "revert-line-strip", "_tablereaders.py", "      line = line.strip()\n      if len(line) == 0", "      line = line[:-1]\n      line = line.strip()\n      if len(line) == 0"),
+ ("C14", "removals-before-overrides", "tools/potable/__init__.py", "  overrides_list = list(override_dict.values())", "  overrides_list = sorted(override_dict.values(), key=lambda t: t.value is not None)"),
+ ("C14", "value-rsplit", "tools/potable/__init__.py", '    key, value = key.split("=", 1)', '    key, value = key.rsplit("=", 1)'),
+ ("C14", "list-pair-twice", "tools/potable/_query_actions.py", '  if "potential_form" in parsed_sections:', '  if "pair" in parsed_sections:\n    items.extend(_list_pair(cp))\n  if "potential_form" in parsed_sections:'),
  ("C03", "setfl-nr-minus-1", "eam_tabulation.py", None, None),
 ]
 def main():
